@@ -14,9 +14,9 @@ def isPathByte (b : UInt8) : Bool :=
 
 /-- the text before the first `sep`, and the text after it (none if there is no `sep`) -/
 def cut1 (sep : UInt8) (s : Bytes) : Bytes × Option Bytes :=
-  match s.span (· != sep) with
-  | (a, []) => (a, none)
-  | (a, _ :: b) => (a, some b)
+  match s.dropWhile (· != sep) with
+  | [] => (s.takeWhile (· != sep), none)
+  | _ :: b => (s.takeWhile (· != sep), some b)
 
 /-- is the URI inside the modelled fragment -/
 def uriInFragment (uri : Bytes) : Bool :=
